@@ -308,23 +308,6 @@ end
 
 /-! ## the classes' `__eq__` methods -/
 
-mutual
-/-- numeric value of a tree whose leaves are bare Python ints and whose inner nodes are `Sum`/`Product` (or their `Parenthesised*` subclasses)
-(what pymbolic's evaluation mapper computes for `float(other)` inside `FloatLiteral.__eq__`); `none` = raises -/
-def evalPy : Node → Option Int
-  | pyInt v => some v
-  | nary .sum cs => evalPyL (· + ·) 0 cs
-  | nary .psum cs => evalPyL (· + ·) 0 cs
-  | nary .prod cs => evalPyL (· * ·) 1 cs
-  | nary .pprod cs => evalPyL (· * ·) 1 cs
-  | _ => none
-def evalPyL (f : Int → Int → Int) (acc : Int) : List Node → Option Int
-  | [] => some acc
-  | c :: cs => match evalPy c with
-      | some v => evalPyL f (f acc v) cs
-      | none => none
-end
-
 /-- pymbolic `Expression.__eq__(self, other)` reached from `StrCompareMixin.__eq__` via `super()`, i.e. only when
 `other` is not an instance of `type(self)`: unequal hashes → False, else `is_equal`.  The generic `is_equal`
 requires `type(other) == type(self)`, impossible here; pymbolic's `Quotient.is_equal` accepts any Quotient. -/
@@ -362,12 +345,8 @@ def eqm (rec : Node → Node → Bool) (a b : Node) : Option Bool :=
   | .floatLit =>
       match a, b with
       | floatLit s k, floatLit s2 k2 => some (s == s2 && rec k k2)
-      | floatLit s _, pyInt w => some (pyFloatEqInt s w)
-      | floatLit s _, nary k cs =>                              -- float(other) through the evaluation mapper
-          match evalPy (nary k cs) with
-          | some w => some (pyFloatEqInt s w)
-          | none => some false
-      | _, _ => some false
+      | floatLit s _, pyInt w => some (pyFloatEqInt s w)        -- isinstance(other, (int, float, str))
+      | _, _ => some false                                       -- any other node: False (no float(other))
   | .strLit =>
       match a, b with
       | strLit s, strLit s2 => some (s == s2)
@@ -414,20 +393,6 @@ def shortcutFires (rec : Node → Node → Bool) (a b : Node) : Bool :=
   | range _ lo hi st => rec lo (pyInt 1) && isNone st && rec hi b
   | _ => false
 
-mutual
-/-- every leaf is a bare Python int (so pymbolic's evaluation mapper can evaluate the tree numerically) -/
-def closedNum : Node → Bool
-  | pyInt _ => true
-  | nary _ cs => closedNumL cs
-  | bin _ a b => closedNum a && closedNum b
-  | cmp _ l r => closedNum l && closedNum r
-  | lnot c => closedNum c
-  | _ => false
-def closedNumL : List Node → Bool
-  | [] => true
-  | c :: cs => closedNum c && closedNumL cs
-end
-
 def isPyInt : Node → Bool
   | pyInt _ => true
   | _ => false
@@ -435,22 +400,9 @@ def isIntOrFloatLit : Node → Bool
   | intLit .. => true
   | floatLit .. => true
   | _ => false
-def isCall : Node → Bool
-  | call .. => true
-  | _ => false
-
-/-- known class `floatliteral-evaluates-other`: a `FloatLiteral` against a composite without symbolic leaves;
-`FloatLiteral.__eq__` calls `float(other)`, which evaluates the tree (asymmetric, may raise ZeroDivisionError).
-The model is faithful inside this class only for sums/products. -/
-def KnownFloatEval (a b : Node) : Bool :=
-  (cls a == .FloatLiteral && closedNum b && !isPyInt b) || (cls b == .FloatLiteral && closedNum a && !isPyInt a)
-
 /-- known class `bare-number-vs-literal-hash`: `IntLiteral(1) == 1` but `hash((1, None)) != hash(1)` -/
 def KnownBareVsLit (a b : Node) : Bool :=
   (isPyInt a && isIntOrFloatLit b) || (isPyInt b && isIntOrFloatLit a)
-
-/-- known class `inlinecall-hash-initargs`: two `InlineCall`s (compared by text, hashed by init args) whose init-arg hashes differ -/
-def KnownCallHash (a b : Node) : Bool := isCall a && isCall b && hkey a != hkey b
 
 /-- exception predicate with a pluggable top-level class `K`: the documented shortcut decides `a == b` or
 `b == a`, or `K a b`, or `a`, `b` are two literals of the same class and value whose kinds are such a pair
@@ -465,14 +417,11 @@ def excF (K : Node → Node → Bool) : Nat → Node → Node → Bool
        | _, _ => false)
 
 def noKnown (_ _ : Node) : Bool := false
-def KnownHash (a b : Node) : Bool := KnownFloatEval a b || KnownBareVsLit a b || KnownCallHash a b
 
 /-- the documented exception only (`1:n == n`, also when it happens between the kinds of two literals) -/
 def docExc (a b : Node) : Bool := excF noKnown (size a + size b + 1) a b
-/-- documented exception or known class `floatliteral-evaluates-other` -/
-def symExc (a b : Node) : Bool := excF KnownFloatEval (size a + size b + 1) a b
-/-- documented exception or one of the three known classes -/
-def hashExc (a b : Node) : Bool := excF KnownHash (size a + size b + 1) a b
+/-- documented exception or the open known class `bare-number-vs-literal-hash` -/
+def hashExc (a b : Node) : Bool := excF KnownBareVsLit (size a + size b + 1) a b
 
 /-! ## re-casing of names -/
 
